@@ -64,5 +64,42 @@ def frag_numeric_bounds(R):
     return f
 
 
+KW_MAP = {"ModuleKeyword": "KwModule", "StructKeyword": "KwStruct", "InterfaceKeyword": "KwInterface", "EnumKeyword": "KwEnum", "CustomKeyword": "KwCustom",
+          "TypeAliasKeyword": "KwTypeAlias", "ResultKeyword": "KwResult", "SequenceKeyword": "KwSequence", "DictionaryKeyword": "KwDictionary",
+          "CompactKeyword": "KwCompact", "IdempotentKeyword": "KwIdempotent", "StreamKeyword": "KwStream", "TagKeyword": "KwTag", "UncheckedKeyword": "KwUnchecked"}
+
+
+def frag_keywords(R):
+    def f(repo, used):
+        src = R.strip_comments(R.read(repo, "slicec/src/parsers/slice/lexer.rs", used))
+        body = R.fn_body(src, r"fn check_if_keyword\s*\(")
+        arms = re.findall(r'"(\w+)"\s*=>\s*TokenKind::(\w+)\s*,', body)
+        if len(arms) < 10:
+            raise R.Skip("check_if_keyword: arms not found")
+        items = []
+        for text, tk in arms:
+            if tk in KW_MAP:
+                k = KW_MAP[tk]
+            elif tk.endswith("Keyword") and tk[:-7] in PRIM_ORDER:
+                k = "(KwPrim P%s)" % tk[:-7]
+            else:
+                raise R.Skip("unknown token kind " + tk)
+            items.append("(%s, %s)" % (R.coq_list("%d%%N" % ord(c) for c in text), k))
+        # what the primitives are called (grammar/elements/primitive.rs kind())
+        ps = R.strip_comments(R.read(repo, "slicec/src/grammar/elements/primitive.rs", used))
+        kb = R.fn_body(ps, r"fn kind\s*\(")
+        names = dict(re.findall(r'Self::(\w+)\s*=>\s*"(\w+)"', kb))
+        if sorted(names) != sorted(PRIM_ORDER):
+            raise R.Skip("primitive kind() arms not found")
+        out = ["From Coq Require Import List NArith.\nFrom SliceV Require Import Syntax.Tokens.\nImport ListNotations.\n",
+               "(* check_if_keyword: identifier text -> keyword token (outside attributes) *)",
+               "Definition keyword_table : list (list N * kw) :=\n  %s." % R.coq_list(items).replace("); (", ");\n   ("),
+               "(* Primitive::kind(): the name a primitive goes by *)",
+               "Definition prim_name (p : prim) : list N :=\n  match p with\n%s\n  end." % "\n".join("  | P%s => %s" % (n, R.coq_list("%d%%N" % ord(c) for c in names[n])) for n in PRIM_ORDER)]
+        return "\n".join(out) + "\n", "slicec/src/parsers/slice/lexer.rs (check_if_keyword), grammar/elements/primitive.rs (kind)"
+    return f
+
+
 def register_all(R):
     R.FRAGMENTS["NumericBounds"] = frag_numeric_bounds(R)
+    R.FRAGMENTS["Keywords"] = frag_keywords(R)
